@@ -268,7 +268,7 @@ pub fn panic_msg(p: &Box<dyn std::any::Any + Send>) -> String {
         "<non-string panic payload>".into()
     };
     let loc = LAST_PANIC_LOC.with(|l| l.borrow().clone());
-    if loc.contains("vlib/src") || loc.contains("/verif/") {
+    if loc.starts_with("src/") || loc.contains("vlib/") || loc.contains("/verif/") || loc.contains(".cargo/registry") {
         format!("{HARNESS_PANIC} {payload} at {loc}")
     } else {
         format!("{payload} at {loc}")
